@@ -102,7 +102,7 @@ func ruleIterationRestores(r *Run, rule string, k *serKind) {
 		case *ssa.Store:
 			if ia, ok := x.Addr.(*ssa.IndexAddr); ok {
 				// element of a slice / array being rebuilt (not a scratch byte buffer used for decoding)
-				if strings.HasPrefix(c.S(ia.X), "cell:") && strings.Contains(types.TypeString(ia.X.Type(), nil), "byte") {
+				if strings.HasPrefix(c.S(ia.X), "cell:") && strings.Contains(tstr(ia.X.Type(), nil), "byte") {
 					return false
 				}
 				return true
